@@ -157,6 +157,9 @@ fn ip_err_class(msg: &str) -> String {
     if msg.contains("unable to parse IP address") {
         return "err:ip".into();
     }
+    if msg.contains("two 16-byte halves differ") {
+        return "err:pfxhalves".into();
+    }
     if msg.contains("Invalid mode '") {
         return "err:mode".into();
     }
